@@ -42,6 +42,7 @@ def run(db, chk) -> None:
     _validation(db, chk, m)
     _api(db, chk, m)
     _window(db, chk, m)
+    _instance_range(db, chk, m)
 
 
 # ------------------------------------------------------------------------------------------ R1 nodes
@@ -81,6 +82,15 @@ def _nodes(db, chk, m):
     pair = sorted(zip([T.show(x) for x in leaves(nd.col("ts"))], [T.show(x) for x in st_l]))
     chk.ob(rule, "is_start is True on the row carrying ts and False on the row carrying ts + dur", pair == sorted([(T.show(TS), "True"), (T.show(T.add(TS, DUR)), "False")]), where, found=pair,
            accepted=[("ts", True), ("ts+dur", False)], why="swapped flags exchange start and end nodes of every event")
+    # blocking calls: the ids of EXACTLY the names listed in BLOCKING_SYNC_CALLS (looked up by equality, missing names ignored)
+    bl = leaves(nd.col("is_blocking_call"))
+    bt = bl[0] if bl else T.opaque("no is_blocking_call column")
+    txt = T.show(bt)
+    exact = ".get(" in txt and "cudaDeviceSynchronize" in txt and not any(k in txt for k in ("find_match", "strmatch", "re(", "contains", "startswith"))
+    loose = any(k in txt for k in ("find_match", "strmatch", "re(", "contains", "startswith"))
+    chk.ob(rule, "a node is a blocking call iff its name id is the id of one of the listed blocking calls (exact name lookup)", True if exact and all(x == bt for x in bl) else (False if loose else None), where,
+           found=txt[:200], accepted="name.isin({sym_index.get(b) for b in BLOCKING_SYNC_CALLS})",
+           why="a substring match also marks cudaMemcpyPeerAsync / cudaMemcpy2DAsync as blocking: their span edges get weight 0")
     ev_l = leaves(nd.col("ev_idx"))
     chk.ob(rule, "both nodes carry the event's id", ev_l == [IDX, IDX], where, found=[T.show(x)[:60] for x in ev_l], accepted=["index", "index"])
     idx_t = nd.col("idx")
@@ -404,6 +414,43 @@ def _api(db, chk, m):
     chk.ob(rule, "construction path: no DataFrame.drop(axis=..., columns=...) (rejected by the installed pandas: analysis would fail for every trace)", not bad, CP, found=bad, accepted="drop(columns=...)",
            key="hta.analyzers.critical_path_analysis|drop-axis-and-columns")
     chk.analysed_add("construction_closure", closure)
+
+
+def _instance_range(db, chk, m):
+    """the annotation instances that delimit the window: None -> instance 0; k -> instance k; (first, last) -> instances first..last INCLUSIVE"""
+    rule = "C08.R11-instance-range"
+    ref = f"{CP}:CriticalPathAnalysis.critical_path_analysis"
+    fn = m.func("CriticalPathAnalysis.critical_path_analysis")
+    where = m.loc(fn)
+    TD = ("param", "TD")
+    for label, inst, want in (("None", None, (0, 1)), ("0", 0, (0, 1)), ("2", 2, (2, 3)), ("(1, 3)", PyTuple([1, 3]), (1, 4)), ("(2, 2)", PyTuple([2, 2]), (2, 3))):
+        built = []
+
+        def hook(I, name, pos, kw, node):
+            if name == "t.get_trace":
+                return Frame(TD)
+            if name == "t.symbol_table.get_sym_id_map":
+                return {"cuda_sync": 1, "ANNOT": 7, "Stream Wait Event": 9}
+            if name == "deepcopy":
+                return Obj("t_copy", attrs={"traces": {}})
+            if name == "CPGraph":
+                built.append(pos)
+                return Obj("cp_graph")
+            if name.endswith(".critical_path"):
+                return True
+            return NotImplemented
+        I = Interp(db, call_hook=hook)
+        runs = [r for r in I.explore(ref, lambda I: {"cls": Obj("cls"), "t": Obj("t", attrs={"symbol_table": Obj("symtab")}), "rank": T.P("rank"), "annotation": "ANNOT", "instance_id": inst}) if r.raised is None]
+        got = set()
+        for r in runs:
+            for e in r.events:
+                if e["kind"] == "filter" and e.get("how") == "query" and e["func"].endswith("critical_path_analysis"):
+                    for s_ in T.subterms(e["pred"]):
+                        if isinstance(s_, tuple) and len(s_) == 2 and s_[0] == "rowslice" and isinstance(s_[1], tuple) and len(s_[1]) == 3 and all(x is None or isinstance(x, int) for x in s_[1]):
+                            got.add((s_[1][0] or 0, s_[1][1]))
+        chk.ob(rule, f"instance_id={label}: the window spans annotation instances [{want[0]}, {want[1]}) of the selected annotation", (got == {want}) if got else None, where,
+               found=sorted(got, key=repr), accepted=[want], why="an exclusive upper bound drops the last requested instance: its events are missing from the graph; (k, k) selects nothing")
+    chk.floor(rule, 5)
 
 
 def _window(db, chk, m):
